@@ -37,7 +37,20 @@ func c01Keys(family string) [][]byte {
 	panic(family)
 }
 
+// c01Seeds: populated start states (explored in addition to the empty trie, so that shapes needing 4-5
+// operations to build - a valued branch below a branch, three siblings, nested prefix keys - are one
+// or two operations away from the start).  Each is built by puts in the listed order.
+var c01Seeds = map[string][]vTrieOp{
+	"nested-valued-branch": {{kind: "put", k: []byte{0x00}, v: vVal(0x33, 33)}, {kind: "put", k: []byte{0x00, 0x00}, v: []byte{0x01}}, {kind: "put", k: []byte{0x00, 0x01}, v: []byte{0x01}}, {kind: "put", k: []byte{0x01}, v: []byte{0x01}}},
+	"empty-key-root-value": {{kind: "put", k: []byte{}, v: vVal(0x33, 33)}, {kind: "put", k: []byte{0x00}, v: vVal(0x32, 32)}, {kind: "put", k: []byte{0x00, 0x00}, v: []byte{0x01}}, {kind: "put", k: []byte{0x10, 0x00}, v: []byte{0x01}}},
+	"two-hashed-siblings":  {{kind: "put", k: []byte{0x10}, v: vVal(0x33, 33)}, {kind: "put", k: []byte{0x10, 0x00}, v: vVal(0x33, 33)}, {kind: "put", k: []byte{0x01}, v: []byte{0x01}}, {kind: "put", k: []byte{0x01, 0x00}, v: vVal(0x31, 31)}},
+}
+
 func c01Explore(t *testing.T, r *verifmc.Report, family string, ver trie.TrieLayout, depth int) {
+	c01ExploreFrom(t, r, family, ver, depth, "", false)
+}
+
+func c01ExploreFrom(t *testing.T, r *verifmc.Report, family string, ver trie.TrieLayout, depth int, seed string, hashed bool) {
 	keys := c01Keys(family)
 	vals := [][]byte{{}, {0x01}, vVal(0x31, 31), vVal(0x32, 32), vVal(0x33, 33)}
 	if family == "long" {
@@ -57,7 +70,19 @@ func c01Explore(t *testing.T, r *verifmc.Report, family string, ver trie.TrieLay
 		Fresh: func() *vTrieState {
 			tr := NewEmptyTrie()
 			tr.SetVersion(ver)
-			return &vTrieState{t: tr, m: ref.OMap{}, v: ver}
+			st := &vTrieState{t: tr, m: ref.OMap{}, v: ver}
+			for _, o := range c01Seeds[seed] {
+				if d := vApplyTrieOp(st, o); d != "" {
+					panic("seed state: " + d)
+				}
+			}
+			if hashed { // start with all Merkle values cached
+				if d := vApplyTrieOp(st, vTrieOp{kind: "hash"}); d != "" {
+					panic("seed state: " + d)
+				}
+			}
+			st.soft = nil
+			return st
 		},
 		Ops:   func(s *vTrieState) []verifmc.Op { return ops },
 		Apply: func(s *vTrieState, op verifmc.Op) string { return vApplyTrieOp(s, op.(vTrieOp)) },
@@ -106,17 +131,24 @@ func c01Explore(t *testing.T, r *verifmc.Report, family string, ver trie.TrieLay
 func TestVerif_C01(t *testing.T) {
 	r := verifmc.NewReport("C01", "inmemory-root", "model_checking")
 	defer r.Write()
-	r.Rule = "BFS over put/delete/hash histories on the real InMemoryTrie for V0 and V1; short-key alphabet (9 keys x 5 values incl. 31/32/33 bytes) and long-key alphabet (15 keys with 62..66 and 318..322 nibble partial keys); states deduplicated on the full private node dump; every state compared with the independent spec root, Entries, Descendants, and Layout.Root in two insertion orders"
+	r.Rule = "BFS over put/delete/hash histories on the real InMemoryTrie for V0 and V1; short-key alphabet (9 keys x 5 values incl. 31/32/33 bytes) and long-key alphabet (15 keys with 62..66 and 318..322 nibble partial keys); also from 3 populated start states (nested valued branch, empty-key root value, hashed siblings; each with and without cached Merkle values); states deduplicated on the full private node dump; every state compared with the independent spec root, Entries, Descendants, and Layout.Root in two insertion orders"
 	// sanity of the reference itself against constants that do not come from the code under test
 	if got := fmt.Sprintf("%x", ref.TrieRoot(map[string][]byte{}, 0)); got != "03170a2e7597b7b7e3d84c05391d139a62b157e78786d8c082f29dcf4c111314" {
 		t.Fatalf("reference empty root wrong: %s", got)
 	}
 	dShort := verifmc.Pick(3, 4)
 	dLong := verifmc.Pick(3, 4)
+	dSeed := verifmc.Pick(2, 3)
 	for _, ver := range []trie.TrieLayout{trie.V0, trie.V1} {
 		c01Explore(t, r, "short", ver, dShort)
 		c01Explore(t, r, "long", ver, dLong)
+		for _, seed := range []string{"nested-valued-branch", "empty-key-root-value", "two-hashed-siblings"} {
+			for _, hashed := range []bool{false, true} {
+				c01ExploreFrom(t, r, "short", ver, dSeed, seed, hashed)
+			}
+		}
 	}
+	r.Extra["depth_from_populated_states"] = dSeed
 	r.Extra["depth_short"] = dShort
 	r.Extra["depth_long"] = dLong
 }
